@@ -258,15 +258,35 @@ def handleLine (st : State) (line : String) : State × String :=
       | .ok (st', r) => (st', r.compress)
       | .error e => (st, (Json.mkObj [("fatal", e)]).compress)
 
+/-- `play` with the stream taken from a file (real recordings) -/
+def handlePlayFile (st : State) (j : Json) (path : String) : IO String := do
+  let data ← IO.FS.readBinFile path
+  match opPlay st j (some data.toList) with
+  | .ok r => pure r.compress
+  | .error e => pure (Json.mkObj [("fatal", e)]).compress
+
 partial def loop (hIn hOut : IO.FS.Stream) (st : State) : IO Unit := do
   let line ← hIn.getLine
   if line.isEmpty then return ()
   let t := line.trimAscii.toString
   if t.isEmpty then loop hIn hOut st
   else
-    let (st', out) := handleLine st t
-    hOut.putStrLn out
-    loop hIn hOut st'
+    -- the one request that needs IO: a play whose stream lives in a file
+    let viaFile : Option (Json × String) :=
+      match Json.parse t with
+      | .ok j =>
+        match j.getObjValAs? String "op", j.getObjValAs? String "streamFile" with
+        | .ok "play", .ok path => some (j, path)
+        | _, _ => none
+      | .error _ => none
+    match viaFile with
+    | some (j, path) =>
+      hOut.putStrLn (← handlePlayFile st j path)
+      loop hIn hOut st
+    | none =>
+      let (st', out) := handleLine st t
+      hOut.putStrLn out
+      loop hIn hOut st'
 
 end Driver
 
